@@ -171,6 +171,76 @@ def ukfc_lines(meta, Bs=None):
     return " ".join(h), " ".join(kf), mu
 
 
+# ------------------------------------------------------------------------------------------------ several steps on the same objects
+
+SCALE_EXP = {"unit": 0, "tiny": -27, "small": -13, "large": 10, "huge": 23}
+
+
+def derive_step(meta, g):
+    """a further step on the same UKF / KF objects: same models and parameters; new belief, component count,
+    measurement, output weights, skip / failure flags"""
+    r = g.r
+    st = dict(meta)
+    n, k = meta["n"], r.choice([1, 2, 3, 4])
+    st["k"] = k
+    st["outw"] = [r.uniform(0.01, 1.0) for _ in range(k)]
+    if meta["op"] == "ukfp":
+        _, d = U.rnd_scales(g, n)
+        st["Ps"] = [U.scale_cov(U.rnd_psd(g, n, r.choice(U.PSD_STYLES)), d) for _ in range(k)]
+        st["means"] = [[v * d[i] for i, v in enumerate(g.vec(n))] for _ in range(k)]
+        st["skip"] = r.random() < 0.15
+    else:
+        sc = 2.0 ** SCALE_EXP.get(meta["scale"], 0)
+        st["Ps"] = [U.scale_cov(U.rnd_psd(g, n, r.choice(["full", "full", "dyadic", "singular", "diag"])), [sc] * n) for _ in range(k)]
+        st["means"] = [[v * sc for v in g.vec(n)] for _ in range(k)]
+        st["y"] = [v * sc for v in g.vec(meta["m"])]
+        st["fail"] = r.choice([0] * 8 + [1, 2, 3])
+    return st
+
+
+def seq_line(steps):
+    """harness line for 2+ steps on the same objects (ukfps / ukfcs)"""
+    m0 = steps[0]
+    n, nz, v = m0["n"], m0["nz"], m0["variant"]
+    par = [hexd(m0["alpha"]), hexd(m0["beta"]), hexd(m0["kappa"])]
+
+    def bel(st):
+        k = st["k"]
+        b = [hexd(st["means"][i][j]) for i in range(k) for j in range(n)]
+        b += [hexd(st["Ps"][i][a][c]) for i in range(k) for c in range(n) for a in range(n)]
+        return b + [hexd(w) for w in st["outw"]]
+
+    if m0["op"] == "ukfp":
+        h = ["ukfps", str(v), str(n), str(nz)] + par + ["1" if m0["exo"] else "0"] + U.cm_tokens(m0["F"])
+        if v == 1:
+            h += U.cm_tokens(m0["G"]) + U.cm_tokens(m0["Q"]) + U.cm_tokens(m0["Qeff"])
+        else:
+            h += U.cm_tokens(m0["Q"])
+        h += [hexd(x) for x in m0["u"]] + [str(len(steps))]
+        for st in steps:
+            h += ["1" if st["skip"] else "0", str(st["k"])] + bel(st)
+    else:
+        h = ["ukfcs", str(v), str(n), str(nz), str(m0["m"])] + par + ["1" if m0["online"] else "0"] + U.cm_tokens(m0["H"])
+        if v == 1:
+            h += U.cm_tokens(m0["D"]) + U.cm_tokens(m0["R"]) + U.cm_tokens(m0["Reff"])
+        else:
+            h += U.cm_tokens(m0["R"])
+        h += [str(len(steps))]
+        for st in steps:
+            h += [str(st["fail"]), str(st["k"])] + [hexd(x) for x in st["y"]] + bel(st)
+    return " ".join(h)
+
+
+def split_seq(h, nsteps):
+    """per-step outputs of a sequence line in the single-step format"""
+    if not h.startswith("ok"):
+        return [h] * nsteps
+    parts = h[2:].split(";;")
+    if len(parts) != nsteps:
+        return ["bad-seq-output"] * nsteps
+    return ["ok " + p.strip() for p in parts]
+
+
 # ------------------------------------------------------------------------------------------------ parsing
 
 def read_gm(t, p, n, k, conv):
@@ -482,15 +552,37 @@ def run(ctx):
     stats, hist, notes = {}, {}, {}
     g = ctx.gen("ukf")
     NP, NC = ctx.n(110, 3000), ctx.n(130, 4000)
-    metas = [ukfp_case(g, ctx.tier) for _ in range(NP)] + [ukfc_case(g, ctx.tier) for _ in range(NC)]
+    objects = []
+    for mk in [ukfp_case] * NP + [ukfc_case] * NC:
+        st = [mk(g, ctx.tier)]
+        if g.r.random() < 0.3:
+            for _ in range(g.r.choice([1, 2])):
+                st.append(derive_step(st[0], g))
+        objects.append(st)
     if ctx.replay:
         import json
-        metas = [U.unsnap(json.load(open(ctx.replay))["replay"]["meta"])]
-    snaps = [U.snap(m) for m in metas]
-    hl = []
-    for meta in metas:
-        hl.append((ukfp_lines(meta) if meta["op"] == "ukfp" else ukfc_lines(meta))[0])
-    hout, logs = vlib.run_harness(binary, hl)
+        rm = U.unsnap(json.load(open(ctx.replay))["replay"]["meta"])
+        objects = [rm["steps"] if isinstance(rm, dict) and "steps" in rm else [rm]]
+    ohl = []
+    for st in objects:
+        if len(st) == 1:
+            ohl.append((ukfp_lines(st[0]) if st[0]["op"] == "ukfp" else ukfc_lines(st[0]))[0])
+        else:
+            ohl.append(seq_line(st))
+    ohout, logs = vlib.run_harness(binary, ohl)
+    # flatten to single steps
+    metas, hl, hout, snaps = [], [], [], []
+    for st, line, h in zip(objects, ohl, ohout):
+        outs = split_seq(h, len(st)) if len(st) > 1 else [h]
+        sn = U.snap({"steps": st})
+        for si, (m_, ho) in enumerate(zip(st, outs)):
+            m_ = dict(m_)
+            m_["step"] = si
+            metas.append(m_)
+            hl.append(line)
+            hout.append(ho)
+            snaps.append(sn)
+        hist["steps-per-object=%d" % len(st)] = hist.get("steps-per-object=%d" % len(st), 0) + 1
     first, dl, dmap = [], [], {}
     for ci, (meta, h) in enumerate(zip(metas, hout)):
         if meta["op"] == "ukfp":
@@ -540,9 +632,9 @@ def run(ctx):
         key2, what, ci, h = corr_bad[0]
         ctx.violation("correspondence:" + key2, "model and implementation disagree (%d cases), no property predicate failed: %s" % (len(corr_bad), what),
                       rdata(ci, h, {"correspondence": "BFL.ukfPredict*/ukfCorrect* vs UKFPrediction/UKFCorrection"}), no_input=True)
-    nontrivial = set(hl[ci] for ci, meta in enumerate(metas) if meta["n"] + meta["nz"] > 1 or meta["k"] > 1)
+    nontrivial = set((hl[ci], meta["step"]) for ci, meta in enumerate(metas) if meta["n"] + meta["nz"] > 1 or meta["k"] > 1)
     ctx.coverage.update({
-        "evaluations": len(metas), "distinct_nontrivial": len(nontrivial),
+        "evaluations": len(metas), "objects": len(objects), "distinct_nontrivial": len(nontrivial),
         "rule": "random linear-Gaussian models: prediction x' = F x (+ u) + w (additive) and x' = F x + G w (+ u) (augmented), correction "
                 "y = H x + v (additive) and y = H x + D v (augmented); n, m in 1..%d, noise rows 1..3 / m..m+1, 1..4 distinct components, PSD P incl. "
                 "singular, F/H incl. zero / rank-deficient / triangular, alpha in [0.1, 2], beta, kappa >= 0; skipping state model; failing model "
